@@ -841,6 +841,11 @@ func defaultEtcdSnapshotBucket(cluster *kafscalev1alpha1.KafscaleCluster) string
 	return sanitizeBucketName(fmt.Sprintf("%s-%s-%s", defaultSnapshotBucketPrefix, namespace, name))
 }
 
+const (
+	minBucketNameLength = 3
+	maxBucketNameLength = 63
+)
+
 func sanitizeBucketName(raw string) string {
 	raw = strings.ToLower(strings.TrimSpace(raw))
 	if raw == "" {
@@ -865,7 +870,11 @@ func sanitizeBucketName(raw string) string {
 		}
 	}
 	out := strings.Trim(b.String(), "-")
-	if out == "" {
+	// S3 bucket names are 3-63 characters long and end with a letter or digit.
+	if len(out) > maxBucketNameLength {
+		out = strings.TrimRight(out[:maxBucketNameLength], "-")
+	}
+	if len(out) < minBucketNameLength {
 		return defaultSnapshotBucketPrefix
 	}
 	return out
